@@ -85,7 +85,7 @@ def build_c01(stack):
         ds = S.build(dict(stack, above=[]))
     if stack.get("jointprobe"):
         from .simdata import CountingFusedWrapper
-        ds = CountingFusedWrapper(ds)
+        ds = CountingFusedWrapper(ds, joint=stack.get("jointprobe") != "separate")
     if stack.get("above_seeded"):
         ds = S.apply_seeded(ds, stack["above_seeded"])
     for layer in stack.get("above", []):
@@ -222,7 +222,8 @@ class Spec(core.PropSpec):
             # fault: the storage behind the root fails transiently at some accesses (every worker replica counts its own)
             stack["root"]["fail_at"] = sorted({ro.randint(1, 12) for _ in range(ro.randint(1, 3))})
         return dict(stack=stack, mode=mode, return_ctx=rw.random() < 0.5, K=K, ops=ops, base_seed=ro.randint(0, 2 ** 40),
-                    amb_main=rw.getrandbits(30), amb_ref=rw.getrandbits(30), hook=ro.random() < 0.7)
+                    amb_main=rw.getrandbits(30), amb_ref=rw.getrandbits(30), hook=ro.random() < 0.7,
+                    earlier_mw=core.Streams(seed)("earlier").random() < 0.3)
 
     def shrink_candidates(self, plan):
         st = plan["stack"]
@@ -288,6 +289,24 @@ class Spec(core.PropSpec):
         stack, mode, rc = plan["stack"], plan["mode"], plan["return_ctx"]
         site = ("fused" if fused_groups(stack) or stack.get("above_seeded") else "plain") + (",concat" if stack.get("concat") else "")
         main = SimProcess("main", plan["amb_main"])
+        if plan.get("earlier_mw"):
+            # earlier, unrelated use in the same process: a mode wrapper with the same mode string over a stack with the same outer
+            # layers but the opposite fused-loading declaration (whatever the library remembers of it must not reach the next one)
+            sd_ = stack.get("seeded")
+            if stack.get("jointprobe"):
+                variant = dict(stack, jointprobe="separate")  # same wrapper class, configured to load the items one by one
+            elif sd_ and sd_.get("w") in ("mix", "semseg"):
+                variant = dict(stack, seeded=None)
+            else:
+                variant = dict(stack, jointprobe=True)
+            try:
+                with main.on_cpu():
+                    old_mw = ModeWrapper(build_c01(variant), mode=mode, return_ctx=rc)
+                    old_mw[0]
+                out.count("fault:earlier_unrelated_mode_wrapper_in_same_process")
+            except Exception:
+                out.count("earlier_mode_wrapper_refused")
+            old_mw = None
         try:
             with main.on_cpu():
                 mw = ModeWrapper(build_c01(stack), mode=mode, return_ctx=rc)
